@@ -23,6 +23,7 @@ print(' '.join(ps))
 PY
 )
     expect_detect=1; grep -q '"history": "NOT detected' "$d/meta.json" && expect_detect=0
+    grep -q '"retired":' "$d/meta.json" && expect_detect=0
     (cd "$REPO" && git apply "$d/patch.diff" 2>/dev/null) || { echo "$s: PATCH DOES NOT APPLY"; fail=1; continue; }
     got=0; where=""
     for p in $props; do
